@@ -133,7 +133,7 @@ class Workload:
         # class 6: hostile identifier lexemes x positions (sampled deterministically)
         if self.n_lexeme:
             from mindsdb_sql.parser.ast.select.identifier import RESERVED_KEYWORDS
-            ids = sqlgen.hostile_identifiers(monitors.lexer_classes()['mindsdb'], sorted(RESERVED_KEYWORDS))
+            ids = sqlgen.hostile_identifiers(list(monitors.lexer_classes().values()), sorted(RESERVED_KEYWORDS))
             r = core.rng_for(ctx.seed, 'parsework', 'lexeme')
             positions = sqlgen.IDENT_POSITIONS + (sqlgen.IDENT_POSITIONS_EXTRA if self.lexeme_extra else [])
             npos = len(positions)
